@@ -51,6 +51,9 @@ LAYER_CONFIGS = [
     [("L1", ["q.a"]), ("L2", ["q.ab", "q.b"]), ("L3", ["q.c"])],
     [("L1", ["q.a.x", "q.ab"]), ("L2", ["q.b"])],
     [("L1", ["q.a"]), ("L2", ["q.b", "q.c"])],
+    # a layer given by an expression that matches other modules in the second architecture than in the first (q.c.k there,
+    # q.b.z here): whatever a rule object learnt about it on one architecture must not be used on the other (round 9)
+    [("L1", ["q.a"]), ("L2", ["q.ab"]), ("U", ["q.c.k", "q.b.z"], r"q\.[bc]\.[kz]$")],
 ]
 
 
@@ -78,12 +81,15 @@ def rule_specs(draw):
 def layer_specs(draw):
     cfg = draw(st.sampled_from(LAYER_CONFIGS))
     defs = []
-    for name, mods in cfg:
-        if draw(st.integers(0, 2)) == 0:
+    for entry in cfg:
+        name, mods = entry[0], entry[1]
+        if len(entry) == 3:
+            defs.append({"name": name, "kind": "regex", "regex": entry[2], "modules": list(mods)})
+        elif draw(st.integers(0, 2)) == 0:
             defs.append({"name": name, "kind": "regex", "regex": c05.layer_regex(mods), "modules": list(mods)})
         else:
             defs.append({"name": name, "kind": "names", "modules": list(mods), "as_str": False})
-    names = [n for n, _ in cfg]
+    names = [entry[0] for entry in cfg]
     subj = draw(st.sampled_from(names))
     others = [n for n in names if n != subj]
     v, d, e = draw(st.sampled_from(RS.SHAPES))
